@@ -97,10 +97,36 @@ func vstubHeartbeatExec(c *Conn, ctx context.Context, req frameBuilder, tracer T
 		vHBCtx.err = context.Canceled
 	}
 	if vBool("exec_fails") {
+		if vBool("because_no_stream_is_free") {
+			return nil, ErrNoStreams
+		}
 		return nil, vErrIO
 	}
 	op, body := vHBFrameBody()
 	return vFramerWith(c, op, body), nil
+}
+
+// C01 / C06: whatever its OPTIONS request ends with, the heartbeat leaves the other requests of the
+// connection alone: a request whose caller gave up keeps its registration and its stream id until its
+// response arrives or the connection goes (the id must not reach another request before that).
+func vh_heartbeat_streams() {
+	c := vNewConn()
+	n := c.streams.NumStreams
+	k1, k2 := int(vI16("k1")), int(vI16("k2"))
+	vAssume(k1 >= 1 && k1 < n && k2 >= 1 && k2 < n && k1 != k2)
+	c1 := &callReq{streamID: k1, resp: make(chan callResp), timeout: make(chan struct{})}
+	c2 := &callReq{streamID: k2, resp: make(chan callResp), timeout: make(chan struct{})}
+	close(c1.timeout) // its caller timed out or was cancelled; the response is still outstanding
+	vEnvChan(c2.resp)
+	c.calls[k1], c.calls[k2] = c1, c2
+	vHBCtx = &vCtx{done: make(chan struct{})}
+	vHBCalls, vHBSteps = 0, vBound("steps")
+	c.heartBeat(vHBCtx)
+	if !c.closed {
+		vAssert(c.calls[k1] == c1 && c.calls[k2] == c2, "C01/heartbeat/outstanding-requests-stay-registered")
+		vAssert(len(vClears) == 0, "C01/heartbeat/releases-no-stream-of-another-request")
+	}
+	vObserve("calls", vHBCalls)
 }
 
 func vh_heartbeat_frames() {
